@@ -900,3 +900,108 @@ Proof.
       destruct SG as (_ & _ & HR1). cbn [spec_after length forallb]. rewrite P. cbn [negb andb].
       destruct (IH s1 _ HR1 HC2) as (A & B & C). split; [exact A|]. split; [f_equal; exact B|exact C].
 Qed.
+
+(* ---- totality of the reader in every state the simulation covers ---- *)
+Lemma is_panic_bind_hash (x : cres (list Z)) : is_panic (l <~ x ;; COk (hash l)) = is_panic x.
+Proof. destruct x; reflexivity. Qed.
+
+Lemma reader_total g s sp id : R g s sp ->
+  is_panic (counter_value s id) = false /\ is_panic (counter_state s id) = false /\
+  is_panic (free_to_reuse_deadline s id) = false /\ is_panic (counter_label s id) = false.
+Proof.
+  intros HR. pose proof (probe_total g s sp id HR) as H. unfold probe_of, probe_ok in H.
+  apply andb_prop in H as [H _]. apply andb_prop in H as [H _].
+  apply andb_prop in H as [H H4]. apply andb_prop in H as [H H3]. apply andb_prop in H as [H1 H2].
+  rewrite is_panic_bind_hash in H4.
+  repeat split; apply negb_true_iff; assumption.
+Qed.
+
+Lemma reader_range g s sp id : R g s sp ->
+  if (0 <=? id) && (id <? g_n g)
+  then exists v st d l, counter_value s id = COk v /\ counter_state s id = COk st /\
+                        free_to_reuse_deadline s id = COk d /\ counter_label s id = COk l
+  else counter_value s id = CErr IdOutOfRange /\ counter_state s id = CErr IdOutOfRange /\
+       free_to_reuse_deadline s id = CErr IdOutOfRange /\ counter_label s id = CErr IdOutOfRange.
+Proof.
+  intros HR. pose proof (R_geom _ _ _ HR) as G. pose proof (R_n _ _ _ HR) as Hn.
+  destruct ((0 <=? id) && (id <? g_n g)) eqn:E.
+  - destruct (R_id _ _ _ HR id) as (_ & _ & _ & _ & (_ & _ & S3) & _).
+    unfold counter_value, free_to_reuse_deadline, counter_label.
+    rewrite counter_state_ok by (auto; lia). rewrite validate_in by lia. cbn [bindC].
+    rewrite val_access_ok by (auto; lia). rewrite meta_access_ok by (auto; cs; lia).
+    rewrite get_label_ok by (auto; lia). cbn [bindC]. eauto 10.
+  - unfold counter_value, counter_state, free_to_reuse_deadline, counter_label.
+    rewrite validate_out by lia. cbn [bindC]. auto.
+Qed.
+
+Lemma enumerate_total g s sp : R g s sp ->
+  is_panic (for_each s) = false /\ is_panic (iter s) = false /\
+  (forall t reg, is_panic (find_counter_id_by_registration_id s t reg) = false).
+Proof.
+  intros HR. rewrite (for_each_spec _ _ _ HR), (iter_spec _ _ _ HR). repeat split.
+  intros t reg. rewrite (find_spec _ _ _ _ _ HR). reflexivity.
+Qed.
+
+(* what a live counter reads back: the type, key prefix and label given to allocate, the last value set *)
+Lemma live_reads_back g s sp id : R g s sp -> In id (sp_live sp) ->
+  counter_value s id = COk (i_value (sp_info sp id)) /\
+  counter_state s id = COk ST_ALLOCATED /\
+  counter_label s id = COk (i_label (sp_info sp id)) /\
+  In (id, i_type (sp_info sp id), r_key (meta s id), i_label (sp_info sp id)) 
+     (match for_each s with COk l => l | _ => [] end) /\
+  firstn (length (i_key (sp_info sp id))) (r_key (meta s id)) = i_key (sp_info sp id).
+Proof.
+  intros HR H. pose proof (R_geom _ _ _ HR) as G. pose proof (R_n _ _ _ HR) as Hn.
+  pose proof (R_live_range _ _ _ _ HR H) as Hr. pose proof (R_hwm _ _ _ HR) as Hh.
+  destruct (R_id _ _ _ HR id) as (_ & _ & L & _ & (_ & _ & S3) & I & _).
+  destruct (I H) as (I1 & I2 & I3 & I4 & I5 & I6).
+  rewrite counter_value_ok by (auto; lia). rewrite counter_state_ok by (auto; lia).
+  unfold counter_label. rewrite validate_in by lia. cbn [bindC]. rewrite get_label_ok by (auto; lia).
+  rewrite (lab_of_info _ _ _ _ HR H), I5. apply L in H as H'. rewrite H'.
+  repeat split; try assumption.
+  rewrite (for_each_spec _ _ _ HR). apply in_map_iff. exists id. split.
+  - unfold entry_of. rewrite (lab_of_info _ _ _ _ HR H), I1. reflexivity.
+  - apply (in_live_ids _ _ _ _ HR). exact H.
+Qed.
+
+(* ---- the clauses one by one, along every history of the model ---- *)
+Lemma clause_holds (c : cfg -> op -> obs -> spec -> bool) :
+  (forall g o ob sp, chk g o ob sp = true -> c g o ob sp = true) ->
+  forall m nm nv timeout ops, let g := mkcfg nm nv timeout in
+  cfg_ok g = true -> holds_with g (c g) ops (run m ops (mgr0 nm nv timeout)) spec0 = true.
+Proof.
+  intros W m nm nv timeout ops g H. eapply holds_with_weaken; [|apply holds_run; apply R_init; exact H].
+  intros o ob sp C. apply W. exact C.
+Qed.
+Lemma holds_unique : forall m nm nv timeout ops, let g := mkcfg nm nv timeout in
+  cfg_ok g = true -> holds_with g (c_unique g) ops (run m ops (mgr0 nm nv timeout)) spec0 = true.
+Proof. apply (clause_holds c_unique). intros g o ob sp C. apply chk_clauses in C. tauto. Qed.
+Lemma holds_reuse : forall m nm nv timeout ops, let g := mkcfg nm nv timeout in
+  cfg_ok g = true -> holds_with g (c_reuse g) ops (run m ops (mgr0 nm nv timeout)) spec0 = true.
+Proof. apply (clause_holds c_reuse). intros g o ob sp C. apply chk_clauses in C. tauto. Qed.
+Lemma holds_fail_closed : forall m nm nv timeout ops, let g := mkcfg nm nv timeout in
+  cfg_ok g = true -> holds_with g (c_fail_closed g) ops (run m ops (mgr0 nm nv timeout)) spec0 = true.
+Proof. apply (clause_holds c_fail_closed). intros g o ob sp C. apply chk_clauses in C. tauto. Qed.
+Lemma holds_enumerate : forall m nm nv timeout ops, let g := mkcfg nm nv timeout in
+  cfg_ok g = true -> holds_with g c_enumerate ops (run m ops (mgr0 nm nv timeout)) spec0 = true.
+Proof. apply (clause_holds (fun _ => c_enumerate)). intros g o ob sp C. apply chk_clauses in C. tauto. Qed.
+Lemma holds_total : forall m nm nv timeout ops, let g := mkcfg nm nv timeout in
+  cfg_ok g = true -> holds_with g (c_total g) ops (run m ops (mgr0 nm nv timeout)) spec0 = true.
+Proof. apply (clause_holds c_total). intros g o ob sp C. apply chk_clauses in C. tauto. Qed.
+
+Lemma no_panic_in_contract : forall m nm nv timeout ops, let g := mkcfg nm nv timeout in let s0 := mgr0 nm nv timeout in
+  cfg_ok g = true -> in_contract g ops (run m ops s0) spec0 = true ->
+  R g (final m ops s0) (spec_after ops (run m ops s0) spec0) /\
+  length (run m ops s0) = length ops /\
+  forallb (fun ob => negb (obs_panicked ob)) (run m ops s0) = true.
+Proof. intros m nm nv timeout ops g s0 H C. apply reach_R; [apply R_init; exact H|exact C]. Qed.
+
+Lemma reader_total_all : forall g s sp id, R g s sp ->
+  (if (0 <=? id) && (id <? g_n g)
+   then exists v st d l, counter_value s id = COk v /\ counter_state s id = COk st /\
+                         free_to_reuse_deadline s id = COk d /\ counter_label s id = COk l
+   else counter_value s id = CErr IdOutOfRange /\ counter_state s id = CErr IdOutOfRange /\
+        free_to_reuse_deadline s id = CErr IdOutOfRange /\ counter_label s id = CErr IdOutOfRange)
+  /\ is_panic (for_each s) = false /\ is_panic (iter s) = false
+  /\ (forall t reg, is_panic (find_counter_id_by_registration_id s t reg) = false).
+Proof. intros g s sp id HR. split; [apply (reader_range _ _ _ _ HR)|apply (enumerate_total _ _ _ HR)]. Qed.
